@@ -148,6 +148,14 @@ pub fn custom_json() -> BoxedStrategy<String> {
                 }
             }
             if let Some(k) = extra_key {
+                // now and then a known key holds the "wrong" type: an object where other documents
+                // have a scalar, a scalar where they have an object
+                match k.len() % 5 {
+                    0 => { root.insert("build_id".into(), serde_json::json!({"k": 1, "nested": {"x": [1]}})); }
+                    1 => { root.insert("meta".into(), serde_json::json!(5)); }
+                    2 => { root.insert("env".into(), serde_json::json!({"name": "prod"})); }
+                    _ => {}
+                }
                 root.insert(k, serde_json::json!("x"));
             }
             if root.is_empty() { String::new() } else { serde_json::Value::Object(root).to_string() }
